@@ -30,7 +30,7 @@ func init() {
 		Run:    runDeterminism,
 		// the host-clock probes only mean something if operations that read the oracle exchange rate succeeded on the
 		// timestamps written in the probe phase (generator side)
-		RequireTotals: aliveTotals(map[string]int64{"probe-phase-priced-ops-ok": 1}),
+		RequireTotals: aliveTotals(map[string]int64{"probe-phase-priced-ops-ok": 1, "pre-exec-simulated-ok": 100, "pre-exec-checktx-ok": 100}),
 		RaceCases: func(t string) []int {
 			if t == "thorough" {
 				return []int{16}
@@ -456,6 +456,7 @@ func determinismHistory(run *ev.Run, c int, tmp string) {
 	jpath := filepath.Join(tmp, "journal.jsonl")
 	j := rig.NewJournal(jpath)
 	chain := newAllChain(run, seed, j, time.Time{})
+	chain.PreExec = true
 	r := chain.r
 	gen := &execObs{Kind: "generator"}
 	blocks := tierN(run.Tier, 140, 320)
@@ -540,6 +541,7 @@ func determinismStraddle(run *ev.Run, c int, tmp string, D time.Duration) {
 	j := rig.NewJournal(jpath)
 	t0 := time.Now() // the host clock is read here on purpose: this case places chain time relative to it
 	chain := newAllChain(run, seed, j, t0.Add(-D-2*time.Hour))
+	chain.PreExec = true
 	r := chain.r
 	gen := &execObs{Kind: "generator"}
 	// prelude: chain time far older than D
